@@ -42,7 +42,11 @@ def has_quant(e):
                 break
             todo.append(x.body())
         else:
-            todo.extend(x.children())
+            ch = x.children()
+            if z3.is_eq(x) and any(z3.is_quantifier(c) for c in ch):
+                r = True       # array == lambda needs extensionality: as hard as a quantifier
+                break
+            todo.extend(ch)
     _HQ[k] = (e, r)      # the term is kept alive so that its id cannot be reused
     return r
 
@@ -78,7 +82,10 @@ class St:
         for c in conds:
             if isinstance(c, bool):
                 c = z3.BoolVal(c)
-            self.pc.append(c)
+            if z3.is_and(c):
+                self.assume(*c.children())      # flatten: keeps ground conjuncts usable on their own
+            else:
+                self.pc.append(c)
         return self
 
     def qf_pc(self):
@@ -108,4 +115,16 @@ def initial_state(tag="H0"):
         st.heap[comp] = z3.Const("%s_%s" % (tag, comp), sort)
     st.alloc = z3.Int("alloc0")
     st.assume(st.alloc >= 1000)     # addresses below 1000 are reserved for global singletons
+    # heap well-formedness: no reference stored in the initial heap points at an unallocated address
+    a, i = z3.Int("a!hw"), z3.Int("i!hw")
+    k = z3.Const("k!hw", Val)
+    for comp, idx in (("idict", i), ("lelem", i), ("dval", k), ("dkey", k)):
+        t = z3.Select(z3.Select(st.heap[comp], a), idx)
+        st.assume(z3.ForAll([a, idx], z3.Implies(is_ref(t), z3.And(a_of(t) >= 0, a_of(t) < st.alloc)), patterns=[t]))
+    for comp in ("llen", "dsize"):
+        t = z3.Select(st.heap[comp], a)
+        st.assume(z3.ForAll([a], t >= 0, patterns=[t]))
+    # list arrays are normalised: the 'no value' marker outside [0, len)  (maintained by every list model)
+    t = z3.Select(z3.Select(st.heap["lelem"], a), i)
+    st.assume(z3.ForAll([a, i], z3.Implies(z3.Or(i < 0, i >= z3.Select(st.heap["llen"], a)), t == ABSENT), patterns=[t]))
     return st
